@@ -7,6 +7,11 @@ pub fn verif_root() -> PathBuf {
     PathBuf::from("/verif")
 }
 
+/// the subject's source tree (always /repo for a check run from /verif, see ./check)
+pub fn repo_root() -> String {
+    std::env::var("VERIF_REPO").unwrap_or_else(|_| "/repo".into())
+}
+
 pub fn fnv64(b: &[u8]) -> u64 {
     let mut h: u64 = 0xcbf2_9ce4_8422_2325;
     for &x in b {
